@@ -134,7 +134,7 @@ def build(x):
               "impl<OperatorChain, IndexFn> End<OperatorChain, IndexFn>\nwhere\n    IndexFn: KeyerFn<u64, OperatorChain::Out>,\n    OperatorChain: Operator,\n    OperatorChain::Out: Send + 'static,\n{\n" + end_inv_text() + SPEC_TAIL + "}\n"]
     ss = x.method(F, 'End', 'setup_senders')
     ss.add_spec(SETUP_SPEC)
-    ss.sub('V-SUBST', r'glidesort::sort_by_key\(&mut self\.senders, \|s\| s\.0\);', 'sort_senders_by_endpoint(&mut self.senders);', detail='glidesort::sort_by_key(&mut v, |s| s.0) -> contracted stub (permutation)', must=True)
+    ss.sub('V-SUBST', r'glidesort::sort_by_key\(&mut self\.senders, \|(\w+)\| \1\.0\);', 'sort_senders_by_endpoint(&mut self.senders);', detail='glidesort::sort_by_key(&mut v, |s| s.0) -> contracted stub (permutation)', must=True)
     # R2: the All arm
     ss.sub('V-ITER', r'\(0\.\.self\.senders\.len\(\)\)\s*\.map\(\|(\w+)\| vec!\[\1\]\)\s*\.map\(BlockSenders::new\)\s*\.collect\(\)',
            r'''{ let mut __v: Vec<BlockSenders> = Vec::new(); let mut \1: usize = 0;
